@@ -66,7 +66,9 @@ class Mixed:
         f = self.r.choice(FILES)
         g = gram.random_file(self.r, self.r.randint(1, 8), self.optmode, self.bad_rate, D="=", C="#")
         self.files.add(f)
-        self.add("file %s %s" % (hx(self.R + f), hx(file_bytes(g["lines"]))), None)
+        # framing (Parser.tla FileBytes): the final newline is optional and means nothing
+        fnl = not (g["lines"] and g["lines"][-1] and self.r.random() < 0.25)
+        self.add("file %s %s" % (hx(self.R + f), hx(file_bytes(g["lines"], fnl))), None)
         lines = g["lines"]
         self.script.append("echo f")
         self.conv.append(lambda ev, root, f=f, lines=lines: [{"e": "file", "path": codes(f), "lines": lines}])
